@@ -186,7 +186,7 @@ def summary(setmap: defaultdict[str, int], stream: TextIO = sys.stdout):
     total = sum(setmap.values())
     data = []
     total_count = 0
-    for pset in sorted(setmap.keys(), key=len):
+    for pset in sorted(setmap.keys(), key=lambda s: (len(s), sorted(s))):
         name = "{" + ", ".join(sorted(pset)) + "}"
         count = setmap[pset]
         percent = (float(setmap[pset]) / float(total)) * 100
